@@ -15,6 +15,21 @@ _PROP_ENGINE = {
 }
 
 
+# properties additionally explored at master level (the ZooKeeper -> model
+# path: Loader parsing, reload_server, restore_placement, fail-over)
+_MULTI = {'C01': 0.2, 'C04': 0.15, 'C05': 0.2}
+_CACHE = {}
+
+
 def engine_for(prop):
+    if prop in _CACHE:
+        return _CACHE[prop]
     mod = importlib.import_module('engines.' + _PROP_ENGINE[prop])
-    return mod.ENGINE
+    eng = mod.ENGINE
+    if prop in _MULTI:
+        from simkit import multi
+        master = importlib.import_module('engines.mastersim').ENGINE
+        eng = multi.MultiEngine('cellsim+mastersim', [
+            (1.0 - _MULTI[prop], eng), (_MULTI[prop], master)])
+    _CACHE[prop] = eng
+    return eng
